@@ -86,7 +86,8 @@ new.append(entry("C04",
                      # closures under contract (the sweep takes named functions only; a closure that is called through its contract
                      # has to be listed, or its own run-time checks are nobody's obligation - seed C04-6)
                      "uhppote.(*uhppote).listen$1", "uhppote.(*uhppote).Listen$1", "uhppote.(*uhppote).Listen$2", "uhppote.(*uhppote).GetStatus$1",
-                     "uhppote.(*ut0311).Broadcast$1", "uhppote.(*ut0311).Listen$1", "uhppote.(*ut0311).Listen$2"] + ["messages.lemmaDecode" + t for t in open(os.path.join(SPEC, "message_types.txt")).read().split()],
+                     "uhppote.(*ut0311).Broadcast$1", "uhppote.(*ut0311).Listen$1", "uhppote.(*ut0311).Listen$2",
+                     "encoding/UTO311-L0x.Dump"] + ["messages.lemmaDecode" + t for t in open(os.path.join(SPEC, "message_types.txt")).read().split()],
     replay=[{"match": "types.(ControlState)", "driver": "types_render", "pkg": "types", "case": "all"},
             {"match": "(*Weekdays).UnmarshalJSON", "driver": "types_text", "pkg": "types", "case": "weekdays"},
             {"match": "(*Segments).UnmarshalJSON", "driver": "types_text", "pkg": "types", "case": "segments"},
@@ -98,7 +99,6 @@ new.append(entry("C04",
         "encoding/UTO311-L0x.Unmarshal": INLINED_ONLY, "encoding/UTO311-L0x.unmarshal": INLINED_ONLY,
         "encoding/UTO311-L0x.UnmarshalAs": INLINED_ONLY, "encoding/UTO311-L0x.UnmarshalArray": INLINED_ONLY,
         "encoding/UTO311-L0x.UnmarshalArrayElement": INLINED_ONLY,
-        "encoding/UTO311-L0x.Dump": "debug hex dump (only called when debug is on): VC generation exceeds the budget (formatting loops over fmt.Sprintf without a model)",
         "uhppote.(*uhppote).broadcast": INLINED_ONLY + " (inlined into GetDevices)",
         "uhppote.(*uhppote).ListenAddrList": "engine limitation (address of a local array element inside an unrolled loop)",
         "uhppote.(*uhppote).tcpSendTo": "helper verified inlined into sendto$1, which establishes driver != nil and len(request) == 64",
